@@ -352,6 +352,20 @@ def run(prog, ctx):
                         f.id, sorted(k for k, v in arms.items() if v), sorted(k for k, v in arms.items() if not v)), f.id)
     res.rule("C03.H", n_h, 4, "estimator-state transfers")
 
+    # C03.E  the union skips inputs that report themselves empty: emptiness of the three register arrays must mean "all registers
+    #        zero" (imported from C02.E), or a non-empty input is silently dropped
+    try:
+        from . import C02
+        r2 = C02.run(prog, dict(ctx))
+        for v in r2.violations:
+            if v.rule == "C02.E":
+                res.violate("C03.E", "C03.E|" + v.key, "an input the union would skip as empty: " + v.message, getattr(v, "fn", None), getattr(v, "span", None))
+        res.obligations += 1
+        if not any(v.rule == "C02.E" for v in r2.violations):
+            res.discharged += 1
+        res.rule("C03.E", r2.rules.get("C02.E", {}).get("instances", 0), 3, "emptiness of the register arrays (imported from C02.E)")
+    except Exception as ex:
+        res.extra.setdefault("undecided_items", []).append("C03.E could not run C02: %r" % (ex,))
     res.explanation = ("structural rules over the %d functions reachable from HllUnion::{update,to_sketch,reset,new}: gadget adoption guard, "
                        "max-merge stores, down-sample masks, cache rebuild post-domination, estimator-state transfer, gadget type" % len(reach))
     res.not_decided = "order/repetition independence and numeric equality of estimates"
